@@ -595,6 +595,10 @@ func laws() []law {
 		{name: "slice-set-empty-is-del", a: `setpath([$x]; []) == delpaths([[$x]])`, in: arrIn, x: sliceObj, judges: []string{"setpath", "delpaths"}},
 		{name: "slice-set-replaces", a: `. as $v | (($v | length) - ($v | .[$x.start:] | length)) as $s | setpath([$x]; ["N", "M", "K"]) == ((delpaths([[$x]]) | .[:$s]) + ["N", "M", "K"] + (delpaths([[$x]]) | .[$s:]))`,
 			in: arrIn, x: sliceObj, judges: []string{"setpath"}},
+		{name: "slice-saturates", a: `[.[:$x], .[$x:]]`, b: `if $x > 0 then [., (if type == "string" then "" else [] end)] else [(if type == "string" then "" else [] end), .] end`, in: func(v any) bool { return (isArr(v) && noNaN(v)) || isStr(v) && utf8.ValidString(v.(string)) },
+			x: func(_, x any) bool { return isNum(x) && !math.IsNaN(toF(x)) && math.Abs(toF(x)) >= 4611686018427387904 }, judges: []string{"_slice", "_index"}},
+		{name: "modulo-of-huge-floats", a: `[($x % 7), (7 % $x)]`, b: `if $x > 0 then [(9223372036854775807 % 7), 7] else [(-9223372036854775808 % 7), 7] end`, in: func(any) bool { return true },
+			x: func(_, x any) bool { f, ok := x.(float64); return ok && !math.IsNaN(f) && math.Abs(f) >= 9223372036854775808 }, judges: []string{"_modulo"}},
 		{name: "string-index-codepoints", a: `.[$x]`, b: `explode | .[$x] | if . == null then null else [.] | implode end`, in: validStr, x: func(_, x any) bool { i, ok := x.(int); return ok && i > -1000 && i < 1000 }, judges: []string{"_index"}},
 		{name: "alternative-is-falsy-test", a: `_alternative(.; $x)`, b: `if . == null or . == false then $x else . end`, in: func(any) bool { return true }, x: func(_, _ any) bool { return true }, judges: []string{"_alternative"}},
 		{name: "alternative-update", a: `[., .] | .[0] //= $x | .[0]`, b: `if . == null or . == false then $x else . end`, in: func(v any) bool { return noNaN(v) }, x: func(_, x any) bool { return noNaN(x) }, judges: []string{"_alternative"}},
@@ -793,6 +797,7 @@ func lawsOracle(ctx *common.Ctx, o *common.Oracle, cl []*claw) {
 		xs = append(xs, s)
 	}
 	xs = append(xs, sliceObjects()...)
+	xs = append(xs, 9223372036854775808.0, -9223372036854775808.0, 9223372036854777856.0, 4611686018427387904.0, 1e19, -1e19, math.Inf(1), math.Inf(-1))
 	xs = append(xs, 4, -3, -0.5, map[string]any{"a": map[string]any{"b": 2, "c": 3}}, map[string]any{"a": map[string]any{"b": 9}, "d": 1}, map[string]any{"b": 1, "a": "x"}, []any{1, 2}, []any{2, 1}, []any{"a"}, []any{nil})
 	distinct := 0
 	for _, l := range cl {
